@@ -1226,3 +1226,53 @@ Proof.
   - destruct (orient a b c <? 0) eqn:E2; [|lia].
     rewrite Z.gtb_lt, incircle_swap. apply Z.ltb_lt in E2. split; intros H; nia.
 Qed.
+
+(* ================================================================== 2f. cell.connections is a dict: connect = d[key] = other *)
+Fixpoint dict_set (k v : coord) (d : list (coord * coord)) : list (coord * coord) :=
+  match d with
+  | [] => [(k, v)]
+  | (k', v') :: t => if zl_eqb k k' then (k, v) :: t else (k', v') :: dict_set k v t
+  end.
+(* for d_coord in offsets: ... cell.connect(self._cells[n_coord], d_coord), statement by statement *)
+Definition conns_dict (torus : bool) (dims : list Z) (offsets : list coord) (c : coord) : list (coord * coord) :=
+  fold_left (fun acc d => match connect_nd torus dims c d with Some n => dict_set d n acc | None => acc end) offsets [].
+
+Lemma dict_set_fresh k v d : ~ In k (map fst d) -> dict_set k v d = d ++ [(k, v)].
+Proof.
+  induction d as [|[k' v'] t IH]; simpl; intros H; [reflexivity|].
+  destruct (zl_eqb k k') eqn:E.
+  - apply zl_eqb_eq in E. subst. exfalso. apply H. left. reflexivity.
+  - rewrite IH; [reflexivity|]. intros Hin. apply H. right. exact Hin.
+Qed.
+
+Lemma conns_nd_keys torus dims offsets c k :
+  In k (map fst (conns_nd torus dims offsets c)) -> In k offsets.
+Proof.
+  intros H. apply in_map_iff in H. destruct H as [[k' v] [Hk Hin]]. simpl in Hk. subst k'.
+  apply conns_nd_In in Hin. tauto.
+Qed.
+
+Lemma conns_dict_acc torus dims c : forall offsets acc,
+  NoDup offsets -> (forall k, In k (map fst acc) -> ~ In k offsets) ->
+  fold_left (fun acc d => match connect_nd torus dims c d with Some n => dict_set d n acc | None => acc end) offsets acc
+  = acc ++ conns_nd torus dims offsets c.
+Proof.
+  induction offsets as [|d t IH]; intros acc Hnd Hdis; simpl; [rewrite app_nil_r; reflexivity|].
+  inversion Hnd as [|d' t' Hnotin Hnd']; subst.
+  destruct (connect_nd torus dims c d) as [n|] eqn:E.
+  - rewrite dict_set_fresh by (intros Hin; apply (Hdis d Hin); left; reflexivity).
+    rewrite IH; [rewrite <- app_assoc; reflexivity|exact Hnd'|].
+    intros k Hk. rewrite map_app, in_app_iff in Hk. destruct Hk as [Hk|[<-|[]]].
+    + intros Hin. apply (Hdis k Hk). right. exact Hin.
+    + exact Hnotin.
+  - unfold conns_nd in IH. rewrite IH; [reflexivity|exact Hnd'|].
+    intros k Hk Hin. apply (Hdis k Hk). right. exact Hin.
+Qed.
+
+(* because no offset occurs twice, the dict the source fills is the list the model uses *)
+Lemma conns_dict_eq torus dims offsets c :
+  NoDup offsets -> conns_dict torus dims offsets c = conns_nd torus dims offsets c.
+Proof.
+  intros H. unfold conns_dict. rewrite conns_dict_acc; [reflexivity|exact H|].
+  intros k [].
+Qed.
